@@ -3689,6 +3689,147 @@ theorem history_sender_named_as_relayer_no_effects (ops : List Op) (hops : OpsWf
   sender_named_as_relayer_no_effects _ id m hm
     (run_queue_wf ops hops hn m (findMsg_some hm).1) hu p a hs ha hne hd
 
+/-! ### 12. "its receipt reports success", read off the receipt BYTES
+
+Sections 4 and 5 speak about `TxProof.receipt`, the `Status` of the DECODED receipt.  Whether a receipt
+reports success is a statement about the bytes a validator submits: the first field of the serialized
+receipt is the success code `0x01`.  The two other forms that decode — the empty string (failure
+code) and a 32-byte post-transaction state root (a receipt without any status code: the form used
+before EIP-658, and what go-ethereum emits for a receipt whose node filled in `root` AND `status`,
+reverted transactions included) — do not, and nothing else decodes.  `TxProof.ofReceiptField` builds
+the proof value from that field the way `GetReceipt` does (`receiptStatusOf` = `Receipt.setStatus`),
+so the theorems below quantify over the field, not over a status somebody supplied. -/
+
+/-- **receipt_reports_success_iff.** The decoded status is 1 for exactly one first field: the
+single byte `0x01`. -/
+theorem receipt_reports_success_iff (f : Bytes) : receiptStatusOf f = some 1 ↔ f = [1] := by
+  unfold receiptStatusOf
+  constructor
+  · intro h
+    split at h
+    · assumption
+    · split at h
+      · cases h
+      · split at h <;> cases h
+  · intro h
+    simp [h]
+
+/-- **post_state_receipt_reports_no_success.** A receipt whose first field is a 32-byte string — a
+state root in place of the status code, whatever the 32 bytes are (all zero, `0x00…01`, `0x01 00…`) —
+decodes, with status 0, and keeps the root as part of its identity. -/
+theorem post_state_receipt_reports_no_success (f : Bytes) (h : f.length = 32) :
+    receiptStatusOf f = some 0 ∧ receiptPostState f = f := by
+  have h1 : f ≠ [1] := by
+    intro h'
+    rw [h'] at h
+    cases h
+  have h0 : f ≠ [] := by
+    intro h'
+    rw [h'] at h
+    cases h
+  simp [receiptStatusOf, receiptPostState, h1, h0, h]
+
+/-- **proof_reports_success_iff.** The proof value built from a serialized receipt passes the
+router's status gate iff there is a receipt and its first field is the success code. -/
+theorem proof_reports_success_iff (hash : Nat) (data : Bytes) (field : Option Bytes) (log : Bool)
+    (variant enc : Nat) (sender : Option Nat) :
+    (TxProof.ofReceiptField hash data field log variant enc sender).receipt = some 1 ↔
+      field = some [1] := by
+  cases field with
+  | none => simp [TxProof.ofReceiptField]
+  | some f => simp [TxProof.ofReceiptField, receipt_reports_success_iff]
+
+/-- **accept_implies_receipt_field_is_success_code.** C07, "… and its receipt reports success", on
+the submitted bytes: if the router accepts the proof built from a serialized receipt, that receipt's
+first field is the success code `0x01` — not a state root, not the failure code, not absent. -/
+theorem accept_implies_receipt_field_is_success_code (s : St) (id : Nat) (hash : Nat) (data : Bytes)
+    (field : Option Bytes) (log : Bool) (variant enc : Nat) (sender : Option Nat)
+    (h : (attest s id (.tx (TxProof.ofReceiptField hash data field log variant enc sender))).2 = .ok) :
+    field = some [1] := by
+  obtain ⟨p, hw, hr⟩ := accept_implies_success_receipt s id _ h
+  injection hw with hw
+  subst hw
+  exact (proof_reports_success_iff hash data field log variant enc sender).1 hr
+
+/-- **receipt_without_success_code_no_effects.** C07, "a failed receipt never produces the message's
+success effects", for EVERY receipt that does not report success — failure code, state root in place
+of a status code (any 32 bytes), undecodable, absent — every state, every message, every call data
+(the genuine encoding included): not accepted; effect log, keeper state and acceptance log stay as
+they were. -/
+theorem receipt_without_success_code_no_effects (s : St) (id : Nat) (hash : Nat) (data : Bytes)
+    (field : Option Bytes) (log : Bool) (variant enc : Nat) (sender : Option Nat)
+    (hf : field ≠ some [1]) :
+    let p := TxProof.ofReceiptField hash data field log variant enc sender
+    (attest s id (.tx p)).2 ≠ .ok ∧ (attest s id (.tx p)).1.effects = s.effects ∧
+    (attest s id (.tx p)).1.chain = s.chain ∧ (attest s id (.tx p)).1.accepted = s.accepted := by
+  intro p
+  have hne : (attest s id (.tx p)).2 ≠ .ok := fun hok =>
+    hf (accept_implies_receipt_field_is_success_code s id hash data field log variant enc sender hok)
+  exact ⟨hne, effects_only_on_accept s id (.tx p) hne⟩
+
+/-- **post_state_receipt_is_a_failed_receipt.** What the router does with a state-root receipt for a
+stored message, exactly: the outcome of a FAILED receipt — `ErrEthTxFailed`, committed: the message
+leaves the queue, the transaction is spent, nothing else changes — whatever the call data. -/
+theorem post_state_receipt_is_a_failed_receipt (s : St) (id : Nat) (m : QMsg)
+    (hm : findMsg s.queue id = some m) (hash : Nat) (data root : Bytes) (hroot : root.length = 32)
+    (log : Bool) (variant enc : Nat) (sender : Option Nat) :
+    attest s id (.tx (TxProof.ofReceiptField hash data (some root) log variant enc sender)) =
+      (commitReject s id hash, .txFailed) := by
+  have hr := (post_state_receipt_reports_no_success root hroot).1
+  simp [attest, hm, TxProof.ofReceiptField, hr]
+
+/-- **history_receipt_without_success_code_no_effects.** … with the property's quantifier ("all
+receipt statuses", all histories): after any history, through the vote of the validators
+(`attestEvH`, any proof hash): if every transaction proof submitted for the message was built from a
+receipt whose first field is not the success code, nothing is accepted and nothing changes — however
+many validators report it, unanimously or not, and whatever the transactions' call data. -/
+theorem history_receipt_without_success_code_no_effects (hp : ProofV → Nat) (ops : List Op) (id : Nat)
+    (snap : Libcons.Snapshot) (evs : List EvidenceV)
+    (h : ∀ e ∈ evs, ∀ p, e.2 = .tx p → p.receipt ≠ some 1) :
+    (attestEvH hp (run {} ops) id snap evs).2 ≠ .ok ∧
+    (attestEvH hp (run {} ops) id snap evs).1.effects = (run {} ops).effects ∧
+    (attestEvH hp (run {} ops) id snap evs).1.chain = (run {} ops).chain ∧
+    (attestEvH hp (run {} ops) id snap evs).1.accepted = (run {} ops).accepted := by
+  have hne : (attestEvH hp (run {} ops) id snap evs).2 ≠ .ok := by
+    intro hok
+    unfold attestEvH at hok
+    obtain ⟨p, hw, hr⟩ := accept_implies_success_receipt _ id _ hok
+    obtain ⟨P, hP, hwP, -⟩ := winner_is_first_of_a_quorum_hash_group hp snap evs
+      (by rw [hw]; intro h'; cases h')
+    rw [hw] at hwP
+    obtain ⟨e, he, heP⟩ := List.mem_map.1 hP
+    cases P with
+    | tx q =>
+      simp only [ProofV.toWinner, Winner.tx.injEq] at hwP
+      subst hwP
+      exact h e he p heP hr
+    | errorProof _ => simp [ProofV.toWinner] at hwP
+    | other _ => simp [ProofV.toWinner] at hwP
+  exact ⟨hne, effects_only_on_accept _ id _ hne⟩
+
+/-- **post_state_receipt_is_another_proof.** Evidence identity: the same transaction reported with a
+state-root receipt, with a failure-code receipt and with a success-code receipt are three different
+proofs (three vote groups) — `BytesToHash` re-encodes the decoded receipt and the root is emitted. -/
+theorem post_state_receipt_is_another_proof (hash : Nat) (data root : Bytes) (hroot : root.length = 32)
+    (log : Bool) (variant enc : Nat) (sender : Option Nat) :
+    TxProof.ofReceiptField hash data (some root) log variant enc sender ≠
+      TxProof.ofReceiptField hash data (some []) log variant enc sender ∧
+    TxProof.ofReceiptField hash data (some root) log variant enc sender ≠
+      TxProof.ofReceiptField hash data (some [1]) log variant enc sender := by
+  have hne : root ≠ [] := by
+    intro h'
+    rw [h'] at hroot
+    cases hroot
+  constructor
+  · intro h
+    have := congrArg TxProof.postState h
+    simp [TxProof.ofReceiptField, receiptPostState] at this
+    exact hne (this hroot)
+  · intro h
+    have := congrArg TxProof.postState h
+    simp [TxProof.ofReceiptField, receiptPostState] at this
+    exact hne (this hroot)
+
 /-! ## non-vacuity — every example goes through `run` from the initial state `{}` -/
 
 def exVs : GoValset := { validators := [[48, 120, 97, 97]], powers := [4294967296], valsetId := 3 }
@@ -4049,5 +4190,25 @@ example :
       = .notVerified ∧
     (attest (run {} (exOps ++ [.update (exM1.assignedTo 0x99)])) 1
       (.tx { exP with data := exDataNaming 0x99, sender := some 0x99 })).2 = .ok := by decide
+
+
+-- §12: the genuine transaction of message 1 with a receipt whose first field is a 32-byte state root
+-- (here: 31 zero bytes and a final 1 — "status 1" written as a word) instead of the success code: the
+-- outcome of a failed receipt (message removed, transaction spent), no acceptance, no effects; the
+-- same transaction with the success code is accepted.
+def exRoot : Bytes := List.replicate 31 0 ++ [1]
+def exRootP : TxProof := TxProof.ofReceiptField 77 exData (some exRoot) false 0 0 none
+
+example : exRoot.length = 32 ∧ exRootP.receipt = some 0 ∧ exRootP.postState = exRoot := by decide
+example : (attest exS 1 (.tx exRootP)).2 = .txFailed ∧
+    (run {} (exOps ++ [.attest 1 (.tx exRootP)])).effects = [] ∧
+    (run {} (exOps ++ [.attest 1 (.tx exRootP)])).accepted = [] ∧
+    (run {} (exOps ++ [.attest 1 (.tx exRootP)])).processed = [77] ∧
+    (run {} (exOps ++ [.attest 1 (.tx exRootP)])).queue.map (·.id) = [2] := by decide
+set_option maxRecDepth 100000 in
+example : (attest exS 1 (.tx (TxProof.ofReceiptField 77 exData (some [1]) false 0 0 none))).2 = .ok := by decide
+example : (attest exS 1 (.tx (TxProof.ofReceiptField 77 exData (some []) false 0 0 none))).2 = .txFailed ∧
+    (attest exS 1 (.tx (TxProof.ofReceiptField 77 exData (some [2]) false 0 0 none))).2 = .receiptErr ∧
+    (attest exS 1 (.tx (TxProof.ofReceiptField 77 exData none false 0 0 none))).2 = .receiptErr := by decide
 
 end Paloma.Attest
